@@ -21,6 +21,9 @@ static void *lg_tab[LG_CAP];
 static long lg_live, lg_nalloc, lg_errors, lg_peak, lg_used;
 static long lg_fail1, lg_fail2, lg_failfrom;  // 1-based indexes; 0 = off
 static unsigned char lg_poison = 0xA5;
+#ifdef LEDGER_TLS
+static __thread long lg_tn, lg_tfail;  // per-thread allocation counter / per-thread failing index (0 = off)
+#endif
 static void (*lg_hook)(int kind);  // optional scheduling point: 0 alloc, 1 free
 
 static void lg_reset(void) {
@@ -67,6 +70,10 @@ static int lg_del(void *p) {
 }
 static int lg_should_fail(void) {
     long i = ++lg_nalloc;
+#ifdef LEDGER_TLS
+    ++lg_tn;
+    if (lg_tfail && lg_tn == lg_tfail) return 1;
+#endif
     return (lg_fail1 && i == lg_fail1) || (lg_fail2 && i == lg_fail2) || (lg_failfrom && i >= lg_failfrom);
 }
 void *vf_malloc(size_t n) {
